@@ -246,13 +246,15 @@ def dist_job(metric, dtype, rows, feats, with_out=False):
             results = []
             layouts = {'C': np.ascontiguousarray(Xc), 'F': np.asfortranarray(Xc),
                        'strided': np.ascontiguousarray(np.repeat(Xc, 2, axis=1))[:, ::2]}
+            y_strided = np.ascontiguousarray(np.repeat(yc, 2))[::2]          # the same target as a non-contiguous view
             for lname, Xl in layouts.items():
                 for nt in ('1', '4', '16'):
                     os.environ['OMP_NUM_THREADS'] = nt
                     o = (np.full(2 * rows, 7.0)[::2] if with_out == 'strided' else np.full(rows, 7.0)) if with_out else None
+                    yl = y_strided if nt == '4' else yc
                     with core.concrete_mode():
                         try:
-                            r = getattr(mod, metric)(Xl, yc, o) if with_out else getattr(mod, metric)(Xl, yc)
+                            r = getattr(mod, metric)(Xl, yl, o) if with_out else getattr(mod, metric)(Xl, yl)
                         except Exception as e:
                             out.update(exception=repr(e), out=None, violated=['raises ' + type(e).__name__],
                                        signature='%s:%s:exception:%s' % (metric, dtype, type(e).__name__))
